@@ -13,7 +13,7 @@ from vh import gen as G
 def units(tier):
     # every (program, hole) gets one (std, ignore_comments) combination, rotating; thorough uses the
     # larger program set and 3-character lexemes for the base programs
-    return PG.program_units(tier, "rt_prog", ics=(True, False), rotate=True)
+    return PG.program_units(tier, "rt_prog", ics=(True, False), rotate=True) + rule_units(tier)
 
 
 def meta(tier):
@@ -83,3 +83,60 @@ def rt_prog(ctx):
     s2 = str(t2)
     ctx.check(C.strip_trailing_blank_lines(s1) == C.strip_trailing_blank_lines(s2), "str(parse(str(T))) != str(T)")
     ctx.check(C.same_shape(C.shape(t), C.shape(t2)), "parse(str(T)) differs structurally from T")
+
+
+# ----------------------------------------------------------------------------- rule level
+def rule_units(tier):
+    us = []
+    k = 0
+    from sse import harvest
+    for name, text in harvest.cls_pairs():
+        pos = [i for i, ch in enumerate(text) if ch.isalnum()]
+        if not pos:
+            continue
+        step = max(1, len(pos) // (2 if tier == "quick" else 6))
+        for i in pos[::step][: (2 if tier == "quick" else 6)]:
+            k += 1
+            us.append(dict(h="rt_rule", cls=name, text=text, at=i, std="f2008" if k % 2 else "f2003", cost=1))
+    return us
+
+
+def rt_rule(ctx):
+    """Cls(s) for a test input of the repository with one letter/digit replaced by a symbolic
+    letter/digit: whenever it matches, str() of the result must match again (same class) with an
+    equal tree and equal text."""
+    p = ctx.p
+    C.reset()
+    C.get_parser(p["std"])
+    from fparser.two import Fortran2003, Fortran2008, C99Preprocessor
+    cls = None
+    if p["std"] == "f2008":
+        cls = getattr(Fortran2008, api.text(p["cls"]), None)
+    cls = cls or getattr(Fortran2003, api.text(p["cls"]), None) or getattr(C99Preprocessor, api.text(p["cls"]), None)
+    if cls is None or not isinstance(cls, type):
+        ctx.check(True, "class not available")
+        return
+    text = p["text"]
+    i = p["at"]
+    ch = text[i]
+    dom = "digit" if ch.isdigit() else ("upper" if ch.isupper() else "lower")
+    s = text[:i] + ctx.chars("c", 1, dom) + text[i + 1:]
+    ctx.observe("s", s)
+    r = C.outcome(lambda: cls(s))
+    ctx.observe("o", r[0])
+    if r[0] != "ok" or r[1] is None:
+        ctx.check(True, "no match")
+        return
+    s1 = str(r[1])
+    rep = repr(r[1])
+    ctx.observe("s1", s1)
+    C.reset()
+    r2 = C.outcome(lambda: cls(s1))
+    ok = r2[0] == "ok" and r2[1] is not None
+    ctx.check(ok, "rule %s: printed text is not matched again by the same rule" % api.text(p["cls"]))
+    if not ok:
+        return
+    s2 = str(r2[1])
+    ctx.check((s1 == s2) if len(s1) == len(s2) else False, "rule %s: str(Cls(str(Cls(s)))) != str(Cls(s))" % api.text(p["cls"]))
+    rep2 = repr(r2[1])
+    ctx.check((rep == rep2) if len(rep) == len(rep2) else False, "rule %s: re-matched tree differs" % api.text(p["cls"]))
